@@ -11,6 +11,7 @@ import (
 	"github.com/relab/hotstuff"
 	"github.com/relab/hotstuff/internal/proto/clientpb"
 	"github.com/relab/hotstuff/protocol/synchronizer"
+	"github.com/relab/hotstuff/security/crypto"
 )
 
 // ---- observation of one history, emitted as events of the abstract model ----
@@ -752,6 +753,14 @@ func TestVerifC01(t *testing.T) {
 			v.Oracle(false, "harness:deep-stale-lock-script-does-not-reach-the-commit:"+cons, fmt.Sprintf("replica 1 committed %v", res3.commits["r1n0"]), nil)
 		}
 		emitHist(cons, 4, res3.hist.spec, res3, "script-stale-lock-deep-failed-fetch")
+		res4, err := c01ForgedQCCache(cons, 7)
+		if err != nil {
+			t.Fatalf("world: %v", err)
+		}
+		if len(res4.commits["r2n0"]) < 4 {
+			v.Oracle(false, "harness:forged-qc-script-genuine-branch-does-not-commit:"+cons, fmt.Sprintf("replica 2 committed %v", res4.commits["r2n0"]), nil)
+		}
+		emitHist(cons, 4, res4.hist.spec, res4, "script-forged-qc-after-cached-single-signature")
 		res2, err := c01StaleQCLeader(cons, 7)
 		if err != nil {
 			t.Fatalf("world: %v", err)
@@ -1367,6 +1376,141 @@ func c01StaleLockDeep(cons string, seed int64) (*c01Result, error) {
 		send(nb, h2, h3)
 		q, okf = certify(nb)
 		parent = nb
+	}
+	return c01Finish(h, live, 0), nil
+}
+
+// c01ForgedQCCache: certificates must carry a quorum of DISTINCT signers whatever was verified before.
+// Signature cache on. After a common prefix a1..a3, replicas 2 and 3 follow the genuine branch; the
+// Byzantine leader shows replica 1 a private branch whose certificates consist of the leader's own
+// vote signature repeated three times, each time after having delivered that single vote (so that
+// a cache remembering signatures signer by signer knows every entry). A replica that accepts them
+// commits the private branch next to the genuine one.
+func c01ForgedQCCache(cons string, seed int64) (*c01Result, error) {
+	spec := wSpec{consensus: cons, n: 4, byz: []hotstuff.ID{4}, seed: seed, cache: 100}
+	for i := 0; i < 20; i++ {
+		spec.leaders = append(spec.leaders, 4)
+	}
+	w, err := newWorld(spec)
+	if err != nil {
+		return nil, err
+	}
+	h := newC01Hist(w, spec)
+	B := w.nodes[NodeID{ReplicaID: 4}]
+	h1, h2, h3 := w.nodes[NodeID{ReplicaID: 1}], w.nodes[NodeID{ReplicaID: 2}], w.nodes[NodeID{ReplicaID: 3}]
+	live := []*wNode{h1, h2, h3}
+	for _, id := range w.order {
+		w.partition[id] = 0
+	}
+	flush := func() {
+		for guard := 0; len(w.pending) > 0 && guard < 10000; guard++ {
+			m := w.pending[0]
+			w.pending = w.pending[1:]
+			to := w.nodes[m.to]
+			if to.byz {
+				w.byzHandle(to, m.payload)
+				h.observe(nil)
+				continue
+			}
+			if p, ok := m.payload.(hotstuff.ProposeMsg); ok {
+				w.regProposal(&p)
+			}
+			to.eventLoop.AddEvent(m.payload)
+			w.drain(to)
+			h.observe(to)
+		}
+	}
+	k := 0
+	mk := func(view hotstuff.View, parent hotstuff.Hash, qc hotstuff.QuorumCert) *hotstuff.Block {
+		k++
+		b := hotstuff.NewBlock(parent, qc, &clientpb.Batch{Commands: []*clientpb.Command{{ClientID: 99, SequenceNumber: uint64(k), Data: []byte("byz")}}}, view, 4)
+		w.regBlock(b)
+		B.blockchain.Store(b)
+		return b
+	}
+	send := func(b *hotstuff.Block, to ...*wNode) {
+		for _, nd := range to {
+			w.byzSendTo(B, nd, hotstuff.ProposeMsg{ID: 4, Block: b})
+		}
+		flush()
+	}
+	newview := func(qc hotstuff.QuorumCert, to ...*wNode) {
+		for _, nd := range to {
+			w.byzSendTo(B, nd, hotstuff.NewViewMsg{ID: 4, SyncInfo: hotstuff.NewSyncInfoWith(qc), FromNetwork: true})
+		}
+		flush()
+	}
+	certify := func(b *hotstuff.Block) (hotstuff.QuorumCert, bool) {
+		if pc, err := B.auth.CreatePartialCert(b); err == nil {
+			B.votesSeen[b.Hash()] = append(B.votesSeen[b.Hash()], pc)
+		}
+		w.byzAssemble(B)
+		h.observe(nil)
+		for _, q := range w.qcs {
+			if q.BlockHash() == b.Hash() {
+				return q, true
+			}
+		}
+		return hotstuff.QuorumCert{}, false
+	}
+	gen := hotstuff.GetGenesis()
+	genQC := B.viewStates.HighQC()
+	// a certificate made of the Byzantine replica's own vote signature, listed three times
+	forge := func(b *hotstuff.Block) (hotstuff.QuorumCert, hotstuff.PartialCert, bool) {
+		pc, err := B.auth.CreatePartialCert(b)
+		if err != nil {
+			return hotstuff.QuorumCert{}, pc, false
+		}
+		h.observe(nil)
+		m, ok := pc.Signature().(crypto.Multi[*crypto.ECDSASignature])
+		if !ok || len(m) != 1 {
+			return hotstuff.QuorumCert{}, pc, false
+		}
+		return hotstuff.NewQuorumCert(crypto.Multi[*crypto.ECDSASignature]{m[0], m[0], m[0]}, b.View(), b.Hash()), pc, true
+	}
+	vote := func(pc hotstuff.PartialCert, to *wNode) {
+		w.byzSendTo(B, to, hotstuff.VoteMsg{ID: 4, PartialCert: pc})
+		flush()
+	}
+	// views 1..3: a common, genuinely certified prefix a1 <- a2 <- a3 seen by everybody
+	parent, q := gen, genQC
+	ok := true
+	for v := 1; v <= 3 && ok; v++ {
+		nb := mk(hotstuff.View(v), parent.Hash(), q)
+		send(nb, h1, h2, h3)
+		q, ok = certify(nb)
+		parent = nb
+	}
+	if !ok {
+		return c01Finish(h, live, 0), nil
+	}
+	a3, qa3 := parent, q
+	// the genuine branch for h2 and h3 (views 4..8), certified by h2, h3 and the leader
+	newview(qa3, h1, h2, h3)
+	gp, gq, gok := a3, qa3, true
+	for v := 4; v <= 8 && gok; v++ {
+		nb := mk(hotstuff.View(v), gp.Hash(), gq)
+		send(nb, h2, h3)
+		gq, gok = certify(nb)
+		gp = nb
+	}
+	// the private branch for h1: p4 on a3 (genuine QC), then p5.. justified by forged certificates.
+	// Each forged certificate is shown once (rejected), then the leader's single vote for the
+	// certified block is delivered (a verified single signature), then the certificate is shown again.
+	pp := mk(4, a3.Hash(), qa3)
+	send(pp, h1)
+	for v := 5; v <= 8; v++ {
+		fq, pc, fok := forge(pp)
+		if !fok {
+			break
+		}
+		nb := mk(hotstuff.View(v), pp.Hash(), fq)
+		send(nb, h1)
+		vote(pc, h1)
+		send(nb, h1)
+		newview(fq, h1)
+		send(nb, h1)
+		pp = nb
 	}
 	return c01Finish(h, live, 0), nil
 }
